@@ -417,8 +417,9 @@ def msgSigLoop (mbuf : Buf) (pflags : Nat) : List Hdr → SigLoopSt → SigLoopS
       else msgSigLoop mbuf pflags rest st3
     else msgSigLoop mbuf pflags rest st
 
-/-- `GetMsgSig(msg)`; `b` is the buffer `msg.Buf` is a prefix of. (sig, err, panicked) -/
-def getMsgSig (m : PSIPMsg) (b : Buf) : MsgSig × Err × Bool :=
+/-- the body of `GetMsgSig(msg)` behind its completeness guard; `b` is the buffer `msg.Buf` is a prefix of.
+    (sig, err, panicked) -/
+def getMsgSigCore (m : PSIPMsg) (b : Buf) : MsgSig × Err × Bool :=
   if !m.request then ({}, .empty, false)
   else
     let mbuf := b.extract 0 m.bufLen
@@ -432,6 +433,14 @@ def getMsgSig (m : PSIPMsg) (b : Buf) : MsgSig × Err × Bool :=
       | (st, false) =>
         if m.hl.n > m.hl.hdrs.size then (st.sig, .trunc, st.pnc) else (st.sig, .ok, st.pnc)
     | _, _ => ({}, .ok, true)
+
+
+/-- `GetMsgSig(msg)`: no signature for a reply, and none (verdict "empty", nothing is read) for a message that is not
+    completely parsed — `msg.Buf` is set only at the end (library repair F24); otherwise the core -/
+def getMsgSig (m : PSIPMsg) (b : Buf) : MsgSig × Err × Bool :=
+  if !m.request then ({}, .empty, false)
+  else if !(m.state == .fin || m.state == .noCLen) then ({}, .empty, false)
+  else getMsgSigCore m b
 
 def hexDigit (n : Nat) : Char := "0123456789abcdef".toList.getD (n % 16) '0'
 
